@@ -22,13 +22,48 @@ func checkC06(c *Ctx) {
 		"dominating tests prove nil on a branch guarded by another error being non-nil (the shape of the swallowed redeclaration error); (C06.const) every binding site Declare*Element in pkg/exec is classified by the syntax field its " +
 		"name flows from and uses the const/non-const variant the manual prescribes (恒为, 输入/parameters, 得到 both forms, 如何/定义 names, 此, imports const; 令/设为 and 遍历 slots assignable); (C06.globals) all three VM.Declare* test " +
 		"vm.globals before touching the scope, lookups consult globals first, nothing writes vm.globals; (C06.intact) Scope.SetValue stores only on the false edge of isConst, the innermost symbol with the name decides " +
-		"(no further search after a match), and declareValue appends only after the same-depth duplicate test. Also: every declaration path stores the isConst flag it was declared with (no recycled slot keeps an old flag); guards may live in helpers (summaries of helpers whose passing returns lie behind the test). (C06.visible) in every Scope method that does not change localCount, each element of locals / values is read at an index the own bounds prover shows to be below localCount (helper results summarised), so symbols of ended blocks cannot be found. NOT decided: visibility for arbitrary nestings (Scope depth arithmetic at run time)."
+		"(no further search after a match), and declareValue appends only after the same-depth duplicate test. Also: every declaration path stores the isConst flag it was declared with (no recycled slot keeps an old flag); guards may live in helpers (summaries of helpers whose passing returns lie behind the test). (C06.visible) in every Scope method that does not change localCount, each element of locals / values is read at an index the own bounds prover shows to be below localCount (helper results summarised), so symbols of ended blocks cannot be found. NOT decided: visibility for arbitrary nestings (Scope depth arithmetic at run time). (C06.ownscope) a function that opens a scope performs its declarations after opening it."
 	R.Assumptions = []string{"Scope.BeginScope/EndScope maintain currentDepth as a counter (pkg/runtime/scope.go, covered by baseline tests)"}
 	u := c.Core()
 	u.buildSSA()
 
 	ruleScopePairing(c, u, "C06.pair")
 	ruleRestC06(c, u)
+
+	// ---- C06.ownscope: a block's declarations go into the scope the block itself opened: in a function that begins a
+	// scope, every Declare*Element it performs comes after the BeginScope (a name declared before it lands in the
+	// caller's block and survives the end of this one)
+	nOwn := 0
+	for _, f := range u.srcFuncs("pkg/exec") {
+		if f.Parent() != nil {
+			continue
+		}
+		begins := u.callsNamed(f, "pkg/runtime.VM.BeginScope")
+		if len(begins) == 0 {
+			continue
+		}
+		for _, in := range instrsOf(f) {
+			call, ok := in.(*ssa.Call)
+			if !ok {
+				continue
+			}
+			n := u.callName(call)
+			if n != "pkg/runtime.VM.DeclareElement" && n != "pkg/runtime.VM.DeclareConstElement" && n != "pkg/runtime.VM.DeclareExternalElement" {
+				continue
+			}
+			nOwn++
+			inside := false
+			for _, b := range begins {
+				if bi, isI := b.(ssa.Instruction); isI && dominatesInstr(bi, in) {
+					inside = true
+				}
+			}
+			R.check(inside, "C06.ownscope", u.fname(f)+":"+siteName(u, f, call), u.pos(call.Pos()), "declared inside the scope this block opened", "a name is declared before the block opens its own scope: it lands in the caller's current block, stays visible after this body has ended and collides with the caller's names")
+		}
+	}
+	if nOwn < 2 {
+		R.viol("C06.ownscope", "instances", "", fmt.Sprintf("expected declarations inside scope-opening functions (parameters, 此, loop slots), found %d", nOwn))
+	}
 }
 
 // ruleScopePairing - BeginScope result is the receiver of a deferred EndScope; nobody ends scopes through the top frame
@@ -124,7 +159,7 @@ func ruleRestC06(c *Ctx, u *Universe) {
 		"ClassDeclareStmt.ClassName":   "const", // 定义
 		"此":                            "const",
 		"VDAssignPair.Variables":       "by-kind", // 令: 恒为 -> const, 设为/= -> assignable
-		"IterateStmt.IndexNames":       "var",   // 遍历 slots are re-assigned on every pass
+		"IterateStmt.IndexNames":       "var",     // 遍历 slots are re-assigned on every pass
 		"import":                       "external",
 	}
 	variant := map[string]string{
